@@ -69,6 +69,116 @@ def hook_overwrite(U):
         U.ensures("every other index is unaffected", b.ok and b.value == want)
 
 
+class _Ref:
+    """stub method_id / field_id item"""
+
+    def __init__(self, name_idx, class_idx):
+        self.name_idx, self.class_idx, self.reloads = name_idx, class_idx, 0
+
+    def get_name_idx(self):
+        return self.name_idx
+
+    def get_class_idx(self):
+        return self.class_idx
+
+    def reload(self):
+        self.reloads += 1
+
+
+class _Pool17:
+    def __init__(self, d):
+        self.d, self.reloads = d, 0
+
+    def get(self, idx):
+        return self.d[idx]
+
+    def reload(self):
+        self.reloads += 1
+
+
+class _ClassDefs:
+    def __init__(self, cd):
+        self.cd = cd
+
+    def get_class_idx(self, idx):
+        return self.cd
+
+
+class _Holder:
+    pass
+
+
+class _ClassDef:
+    def __init__(self):
+        self.F, self.M = _Holder(), _Holder()
+
+
+class _Member:
+    """stub EncodedMethod / EncodedField: reports its current name through the class manager like the real ones"""
+
+    def __init__(self, cm, idx, name_idx, proto="(I)V"):
+        self.cm, self.idx, self.name_idx, self.proto = cm, idx, name_idx, proto
+
+    def get_method_idx(self):
+        return self.idx
+
+    get_field_idx = get_method_idx
+
+    def get_name(self):
+        return self.cm.get_string(self.name_idx)
+
+    def get_descriptor(self):
+        return self.proto
+
+
+RENAME_VALUES = ["ren", "this$0", "val$x", "$VALUES", "<init>", "access$000", "a>b", "x_y", "\u00e9t\u00e9"]
+
+
+@unit("C17", covers=[(DEX, "ClassManager.set_hook_method_name"), (DEX, "ClassManager.set_hook_field_name"),
+                     (DEX, "ClassManager.set_hook_string"), (DEX, "ClassManager.get_string")],
+      params=[{"kind": k, "export": e} for k in ("method", "field") for e in (False, True)], samples=60,
+      note="hook setters on stub id items: the string hook receives exactly the new name (names with $ < > as javac generates "
+           "them, non-ASCII), only at the name index of the renamed item; with and without a Python export of the old name")
+def hook_setters(U, kind, export):
+    from androguard.core.dex.dex_types import TypeMapItem
+    m = U.mod(DEX)
+    cm = object.__new__(m.ClassManager)
+    cm.hook_strings = {}
+    cm.get_raw_string = lambda idx: "orig%d" % idx
+    name_idx = U.choice("name_idx", [0, 3, 9])
+    other_idx = 5
+    ref = _Ref(name_idx, 1)
+    cd = _ClassDef() if export else None
+    cm._ClassManager__manage_item = {TypeMapItem.METHOD_ID_ITEM: _Pool17({7: ref}), TypeMapItem.FIELD_ID_ITEM: _Pool17({7: ref}),
+                                     TypeMapItem.CLASS_DEF_ITEM: _ClassDefs(cd)}
+    it = _Member(cm, 7, name_idx)
+    if export:
+        from androguard.core import bytecode
+        setattr(cd.M if kind == "method" else cd.F, bytecode.FormatNameToPython(it.get_name()), it)
+    if export:
+        value = U.choice("value", RENAME_VALUES)
+    else:
+        value = U.str("value", U.choice("n", [1, 2, 4]), 0x21, 0x2FFF)
+    prior = U.choice("prior", ["none", "same_index", "other_index"])
+    if prior == "same_index":
+        cm.hook_strings[name_idx] = "EARLIER"
+    elif prior == "other_index":
+        cm.hook_strings[other_idx] = "OTHER"
+    setter = cm.set_hook_method_name if kind == "method" else cm.set_hook_field_name
+    o = U.call(setter, it, value)
+    U.ensures("the setter does not raise", o.ok, exc=repr(o.exc))
+    if not o.ok:
+        return
+    U.ensures("the renamed item reports exactly the new name", Eq(it.get_name(), value), got=it.get_name() if U.mode == "conc" else None)
+    want = {name_idx: value}
+    if prior == "other_index":
+        want[other_idx] = "OTHER"
+    U.ensures("no other string index is hooked", set(cm.hook_strings.keys()) == set(want.keys()), keys=sorted(cm.hook_strings.keys()))
+    U.ensures("the id item is reloaded so that cached names are refreshed", ref.reloads >= 1)
+    if prior == "other_index":
+        U.ensures("an unrelated hook is left alone", cm.hook_strings[other_idx] == "OTHER")
+
+
 def _conc(j):
     # representative concrete value on this path (the lookup is a dict access: any j != i behaves alike)
     return j if isinstance(j, int) else j.concretize(limit=1 << 20)
@@ -136,7 +246,7 @@ def rename_sequences(U):
         r = rng.random()
         if r < 0.75:
             k, it = rng.choice(items)
-            new = ("Lren/C%d;" % step) if k == "class" else "ren%d" % step
+            new = ("Lren/C%d;" % step) if k == "class" else rng.choice(["ren%d", "this$%d", "access$%d00", "<ren%d>", "val$r%d"]) % step
             if id(it) in renamed_ids and rng.random() < 0.35:
                 new = orig[id(it)]                      # rename back to the original name
             o = U.call(it.set_name, new)
